@@ -123,7 +123,7 @@ func run(r *report.Run, shard, nshards int, replayFile string) {
 			e.baseB[a.Name][d] = w.Balance(w.Root, a.Addr, d)
 		}
 	}
-	r.Rule = "BFS over Create/Mint/Burn/ChangeAdmin/SetDenomMetadata by X,Y,Z (signed txs) and by X as a contract through the tokenfactory wasm bindings (SetMetadata with a base equal to / different from the authorised denom, Mint to itself or a third party, ChangeAdmin) on factory/X/a, factory/Y/a, factory/X/a/b, ugrain, a 2-part factory string and an ibc denom; every transition is a signed tx through the real ante chain and tokenfactory msg server; a state is distinct by (admins, supplies, balances, metadata); in every state the module's genesis export is imported into a fork of the pristine chain and must reproduce every denom's admin and re-export identically"
+	r.Rule = "BFS over Create/Mint/Burn/ChangeAdmin/SetDenomMetadata by X,Y,Z (signed txs) and by X as a contract through the tokenfactory wasm bindings (SetMetadata with a base equal to / different from the authorised denom, Mint to itself or a third party, Burn from its own balance / with burn_from_address naming itself or a third party, ChangeAdmin) on factory/X/a, factory/Y/a, factory/X/a/b, ugrain, a 2-part factory string and an ibc denom; every transition is a signed tx through the real ante chain and tokenfactory msg server; a state is distinct by (admins, supplies, balances, metadata); in every state the module's genesis export is imported into a fork of the pristine chain and must reproduce every denom's admin and re-export identically"
 	r.Assumptions = []string{
 		"tx atomicity re-implemented as in baseapp.runTx (ante cache, msg cache)",
 		"amount alphabet {5 mint, 3 burn}; larger amounts exercise the same code path (sdk.Int arithmetic in x/bank)",
@@ -478,6 +478,30 @@ func (e *env) ops(n *explore.Node) []explore.Op {
 					e.sup(g, d).Add(e.sup(g, d), amt.BigInt())
 					// minted to the admin (contract) and forwarded by a bank send from its own balance
 					e.bal(g, to.Name, d).Add(e.bal(g, to.Name, d), amt.BigInt())
+				}
+				return nil
+			}})
+		}
+		for _, from := range []string{"", c.Addr.String(), e.actors[2].Addr.String()} {
+			d, from := d, from
+			name := map[string]string{"": "self", c.Addr.String(): "own-address", e.actors[2].Addr.String(): "Z"}[from]
+			ops = append(ops, explore.Op{Label: fmt.Sprintf("CBurn(%s,from=%s)", short(e, d), name), Do: func(ctx *sdk.Context, gg explore.Ghost) *explore.Fail {
+				g := gg.(*ghost)
+				amt := sdkmath.NewInt(3)
+				ok, f := dispatch(ctx, tfbtypes.Message{BurnTokens: &tfbtypes.BurnTokens{Denom: d, Amount: amt, BurnFromAddress: from}})
+				if f != nil {
+					return f
+				}
+				if ok {
+					adm, exists := g.Admin[d]
+					if !exists || adm != c.Addr.String() {
+						return explore.Failf("burn-nonadmin:binding", "contract %s burned %s (exists=%v, admin %q)", c.Name, d, exists, adm)
+					}
+					if from != "" && from != c.Addr.String() {
+						return explore.Failf("burn-from-other:binding", "contract %s burned %s of %s from the balance of %s: a burn must debit the admin's own balance only", c.Name, amt, d, name)
+					}
+					e.sup(g, d).Sub(e.sup(g, d), amt.BigInt())
+					e.bal(g, c.Name, d).Sub(e.bal(g, c.Name, d), amt.BigInt())
 				}
 				return nil
 			}})
